@@ -1,1 +1,987 @@
 // Kani contract harnesses for /repo/arrow-buffer/src/buffer/boolean.rs (child module: sees private items via super::)
+use super::*;
+#[path = "/verif/kani/support/spec.rs"]
+mod spec;
+#[allow(unused_imports)]
+use spec::*;
+
+// ---------------------------------------------------------------------------------------------
+// Shared harness helpers (spec side). Nothing here calls the code under test.
+// ---------------------------------------------------------------------------------------------
+
+/// N <= 64 fully symbolic bytes built without a loop (lets a harness use a small unwind bound).
+#[allow(dead_code)]
+fn any_bytes<const N: usize>() -> [u8; N] {
+    let w: (u128, u128, u128, u128) = (kani::any(), kani::any(), kani::any(), kani::any());
+    let full: [u8; 64] = unsafe { std::mem::transmute(w) };
+    let mut out = [0u8; N];
+    out.copy_from_slice(&full[..N]);
+    out
+}
+#[allow(dead_code)]
+fn mask(b: bool) -> u64 { if b { u64::MAX } else { 0 } }
+
+// STUB (listed): `core::ptr::align_offset`, the single address-dependent step of
+// `<[u8]>::align_to::<u64>()`. CBMC cannot constant-fold an address during symbolic execution, so
+// without it every slice length after `align_to` is symbolic (measured: out of memory / > 5 min).
+// The stub returns the exact value of the real function for a pointer whose address is congruent
+// to the harness-supplied skew modulo 8, and it *asserts* that congruence on the real address, so
+// nothing is assumed about the allocator; the rest of the real `align_to` runs unchanged.
+// The k-th call uses ALIGN_SKEWS[k] (control flow is concrete, so k is concrete).
+#[allow(dead_code)]
+static mut ALIGN_SKEWS: [usize; 6] = [0; 6];
+#[allow(dead_code)]
+static mut ALIGN_CALLS: usize = 0;
+#[allow(dead_code)]
+fn set_skews(s: [usize; 6]) { unsafe { ALIGN_SKEWS = s; ALIGN_CALLS = 0; } }
+/// builder for the list of expected `align_to` calls of one harness (bookkeeping only: a wrong
+/// prediction makes the stub's address assertion fail, it can never hide a violation)
+#[derive(Clone, Copy)]
+#[allow(dead_code)]
+struct Skews { s: [usize; 6], n: usize }
+#[allow(dead_code)]
+fn skews() -> Skews { Skews { s: [0; 6], n: 0 } }
+#[allow(dead_code)]
+impl Skews {
+    /// one `align_to` call on a slice that starts `sk` bytes past an 8-byte aligned address
+    fn raw(mut self, sk: usize) -> Self { self.s[self.n] = sk % 8; self.n += 1; self }
+    /// the `align_to` call of `UnalignedBitChunk::new(bytes, off, len)` (made only when the addressed
+    /// byte range is longer than 16 bytes), `bytes` starting `sk` bytes past an 8-byte aligned address
+    fn ubc(self, sk: usize, off: usize, len: usize) -> Self {
+        if len > 0 && (len + off % 8 + 7) / 8 > 16 { self.raw(sk + off / 8) } else { self }
+    }
+    fn install(self) { unsafe { ALIGN_SKEWS = self.s; ALIGN_CALLS = 0; } }
+}
+#[allow(dead_code)]
+unsafe fn stub_align_offset<T>(p: *const T, a: usize) -> usize {
+    assert!(std::mem::size_of::<T>() == 1 && a == 8);
+    let k = unsafe { ALIGN_CALLS };
+    assert!(k < 6);
+    unsafe { ALIGN_CALLS = k + 1 };
+    let skew = unsafe { ALIGN_SKEWS[k] } % a;
+    assert!((p as usize) % a == skew);
+    (a - skew) % a
+}
+macro_rules! inst {
+    ($name:ident, $unwind:expr, $call:expr) => {
+        #[kani::proof]
+        #[kani::unwind($unwind)]
+        #[kani::stub(core::ptr::align_offset, stub_align_offset)]
+        fn $name() { $call }
+    };
+}
+
+/// symbolic bytes `a` as an arrow Buffer whose data pointer is `sk` bytes past a 64-byte aligned
+/// allocation start (sk % 8 != 0 makes `align_to::<u64>` return a non-empty prefix)
+fn mk(a: &[u8], sk: usize) -> Buffer { Buffer::from_slice_ref(a).slice(sk) }
+
+// =============================================================================================
+// BooleanBuffer::new
+// =============================================================================================
+
+// Contract (C19/C01) BooleanBuffer::new, acceptance direction: for every buffer of n <= 8 bytes and
+// every (offset, len) over the full usize range with offset + len <= 8n (computed in u128, i.e. no
+// overflow), `new` returns (does not panic) a buffer with exactly that offset and length whose
+// bit i is bit offset+i of the bytes.
+// @unit name=bb_new_accepts props=C19,C01 kind=bounded bound=buffer_bytes<=8_(offset,len_full_usize_range) fns=BooleanBuffer::new,BooleanBuffer::value,BooleanBuffer::len,BooleanBuffer::offset timeout=120
+inst!(bb_new_accepts, 4, {
+    let a: [u8; 8] = any_bytes();
+    let n: usize = kani::any();
+    kani::assume(n <= 8);
+    let buf = Buffer::from_slice_ref(&a).slice_with_length(0, n);
+    let (off, len): (usize, usize) = (kani::any(), kani::any());
+    kani::assume(off as u128 + len as u128 <= 8 * n as u128);
+    let b = BooleanBuffer::new(buf, off, len);
+    assert!(b.offset() == off && b.len() == len && b.is_empty() == (len == 0));
+    let i: usize = kani::any();
+    if i < len {
+        assert!(b.value(i) == bit(&a, off + i));
+        kani::cover!(b.value(i) && off > 0 && i > 0);
+    }
+    kani::cover!(len == 0 && off == 8 * n);
+    kani::cover!(len == 64);
+});
+
+// Contract (C19/C01) BooleanBuffer::new, rejection direction (may-reject reading): whenever `new`
+// returns, offset + len <= 8 * bytes holds mathematically (so a wrapped sum is never accepted);
+// panicking is the only other outcome.
+// @unit name=bb_new_rejects props=C19,C01 kind=bounded bound=buffer_bytes<=8_(offset,len_full_usize_range) fns=BooleanBuffer::new timeout=120 mayreject=1
+#[kani::proof]
+#[kani::unwind(4)]
+#[kani::stub(alloc::fmt::format, stub_format)]
+fn bb_new_rejects() {
+    let a: [u8; 8] = any_bytes();
+    let n: usize = kani::any();
+    kani::assume(n <= 8);
+    let buf = Buffer::from_slice_ref(&a).slice_with_length(0, n);
+    let (off, len): (usize, usize) = (kani::any(), kani::any());
+    let b = BooleanBuffer::new(buf, off, len);
+    assert!(off as u128 + len as u128 <= 8 * n as u128);
+    kani::cover!(b.len() == 64);
+    kani::cover!(b.len() == 0 && b.offset() == 64);
+}
+
+// =============================================================================================
+// new_set / new_unset
+// =============================================================================================
+
+fn new_const_grid<const SET: bool, const LEN: usize>() {
+    let b = if SET { BooleanBuffer::new_set(LEN) } else { BooleanBuffer::new_unset(LEN) };
+    assert!(b.len() == LEN);
+    assert!(b.offset() + LEN <= 8 * b.values().len());
+    set_skews([b.offset() / 8 % 8; 6]);
+    assert!(b.count_set_bits() == if SET { LEN } else { 0 });
+    if LEN > 0 {
+        let i: usize = kani::any();
+        kani::assume(i < LEN);
+        assert!(b.value(i) == SET);
+    }
+    kani::cover!(b.len() == LEN);
+}
+// Contract (C19) BooleanBuffer::new_set(n) / new_unset(n): length n, every bit i < n is true / false,
+// count_set_bits is n / 0, and the bit range lies inside the byte buffer.
+// @unit name=bb_new_set_0 props=C19,C01 kind=bounded bound=grid_len=0 fns=BooleanBuffer::new_set timeout=120
+inst!(bb_new_set_0, 6, new_const_grid::<true, 0>());
+// @unit name=bb_new_unset_0 props=C19,C01 kind=bounded bound=grid_len=0 fns=BooleanBuffer::new_unset timeout=120
+inst!(bb_new_unset_0, 6, new_const_grid::<false, 0>());
+// @unit name=bb_new_set_1 props=C19,C01 kind=bounded bound=grid_len=1 fns=BooleanBuffer::new_set tier=thorough timeout=120
+inst!(bb_new_set_1, 6, new_const_grid::<true, 1>());
+// @unit name=bb_new_unset_1 props=C19,C01 kind=bounded bound=grid_len=1 fns=BooleanBuffer::new_unset tier=thorough timeout=120
+inst!(bb_new_unset_1, 6, new_const_grid::<false, 1>());
+// @unit name=bb_new_set_7 props=C19,C01 kind=bounded bound=grid_len=7 fns=BooleanBuffer::new_set tier=thorough timeout=120
+inst!(bb_new_set_7, 6, new_const_grid::<true, 7>());
+// @unit name=bb_new_unset_7 props=C19,C01 kind=bounded bound=grid_len=7 fns=BooleanBuffer::new_unset tier=thorough timeout=120
+inst!(bb_new_unset_7, 6, new_const_grid::<false, 7>());
+// @unit name=bb_new_set_8 props=C19,C01 kind=bounded bound=grid_len=8 fns=BooleanBuffer::new_set tier=thorough timeout=120
+inst!(bb_new_set_8, 6, new_const_grid::<true, 8>());
+// @unit name=bb_new_unset_8 props=C19,C01 kind=bounded bound=grid_len=8 fns=BooleanBuffer::new_unset tier=thorough timeout=120
+inst!(bb_new_unset_8, 6, new_const_grid::<false, 8>());
+// @unit name=bb_new_set_9 props=C19,C01 kind=bounded bound=grid_len=9 fns=BooleanBuffer::new_set tier=thorough timeout=120
+inst!(bb_new_set_9, 6, new_const_grid::<true, 9>());
+// @unit name=bb_new_unset_9 props=C19,C01 kind=bounded bound=grid_len=9 fns=BooleanBuffer::new_unset tier=thorough timeout=120
+inst!(bb_new_unset_9, 6, new_const_grid::<false, 9>());
+// @unit name=bb_new_set_63 props=C19,C01 kind=bounded bound=grid_len=63 fns=BooleanBuffer::new_set tier=thorough timeout=120
+inst!(bb_new_set_63, 6, new_const_grid::<true, 63>());
+// @unit name=bb_new_unset_63 props=C19,C01 kind=bounded bound=grid_len=63 fns=BooleanBuffer::new_unset tier=thorough timeout=120
+inst!(bb_new_unset_63, 6, new_const_grid::<false, 63>());
+// @unit name=bb_new_set_64 props=C19,C01 kind=bounded bound=grid_len=64 fns=BooleanBuffer::new_set tier=thorough timeout=120
+inst!(bb_new_set_64, 6, new_const_grid::<true, 64>());
+// @unit name=bb_new_unset_64 props=C19,C01 kind=bounded bound=grid_len=64 fns=BooleanBuffer::new_unset tier=thorough timeout=120
+inst!(bb_new_unset_64, 6, new_const_grid::<false, 64>());
+// @unit name=bb_new_set_65 props=C19,C01 kind=bounded bound=grid_len=65 fns=BooleanBuffer::new_set timeout=120
+inst!(bb_new_set_65, 6, new_const_grid::<true, 65>());
+// @unit name=bb_new_unset_65 props=C19,C01 kind=bounded bound=grid_len=65 fns=BooleanBuffer::new_unset timeout=120
+inst!(bb_new_unset_65, 6, new_const_grid::<false, 65>());
+// @unit name=bb_new_set_127 props=C19,C01 kind=bounded bound=grid_len=127 fns=BooleanBuffer::new_set tier=thorough timeout=120
+inst!(bb_new_set_127, 6, new_const_grid::<true, 127>());
+// @unit name=bb_new_unset_127 props=C19,C01 kind=bounded bound=grid_len=127 fns=BooleanBuffer::new_unset tier=thorough timeout=120
+inst!(bb_new_unset_127, 6, new_const_grid::<false, 127>());
+// @unit name=bb_new_set_128 props=C19,C01 kind=bounded bound=grid_len=128 fns=BooleanBuffer::new_set tier=thorough timeout=120
+inst!(bb_new_set_128, 6, new_const_grid::<true, 128>());
+// @unit name=bb_new_unset_128 props=C19,C01 kind=bounded bound=grid_len=128 fns=BooleanBuffer::new_unset tier=thorough timeout=120
+inst!(bb_new_unset_128, 6, new_const_grid::<false, 128>());
+// @unit name=bb_new_set_129 props=C19,C01 kind=bounded bound=grid_len=129 fns=BooleanBuffer::new_set tier=thorough timeout=120
+inst!(bb_new_set_129, 6, new_const_grid::<true, 129>());
+// @unit name=bb_new_unset_129 props=C19,C01 kind=bounded bound=grid_len=129 fns=BooleanBuffer::new_unset tier=thorough timeout=120
+inst!(bb_new_unset_129, 6, new_const_grid::<false, 129>());
+// @unit name=bb_new_set_200 props=C19,C01 kind=bounded bound=grid_len=200 fns=BooleanBuffer::new_set tier=thorough timeout=120
+inst!(bb_new_set_200, 6, new_const_grid::<true, 200>());
+// @unit name=bb_new_unset_200 props=C19,C01 kind=bounded bound=grid_len=200 fns=BooleanBuffer::new_unset tier=thorough timeout=120
+inst!(bb_new_unset_200, 6, new_const_grid::<false, 200>());
+
+// =============================================================================================
+// slice / value
+// =============================================================================================
+
+// Contract (C19) BooleanBuffer::slice + value: on a 12-byte buffer with arbitrary (offset, len)
+// accepted by `new`, for every (o, l) with o + l <= len, slice(o, l) has length l and its bit i is bit
+// offset+o+i of the bytes (the slice addresses exactly the requested sub-range; all other bits are
+// symbolic and do not influence it); offset and length are fully symbolic (nothing is allocated).
+// @unit name=bb_slice_value props=C19,C01 kind=bounded bound=buffer_bytes=12_(offset,len,slice_offset,slice_len_symbolic) fns=BooleanBuffer::slice,BooleanBuffer::value,BooleanBuffer::len timeout=200
+inst!(bb_slice_value, 4, {
+    let a: [u8; 12] = any_bytes();
+    let (off, len): (usize, usize) = (kani::any(), kani::any());
+    kani::assume(off <= 96 && len <= 96 - off);
+    let b = BooleanBuffer::new(Buffer::from_slice_ref(&a), off, len);
+    let (o, l): (usize, usize) = (kani::any(), kani::any());
+    kani::assume(o <= len && l <= len - o);
+    let s = b.slice(o, l);
+    assert!(s.len() == l && s.offset() == off + o);
+    let i: usize = kani::any();
+    if i < l {
+        assert!(s.value(i) == bit(&a, off + o + i));
+        assert!(s.value(i) == b.value(o + i));
+        kani::cover!(s.value(i) && o % 8 == 3 && i == 64);
+    }
+    kani::cover!(l == 0 && o == len);
+});
+
+// Contract (C19) BooleanBuffer::slice rejection direction (may-reject): if slice(o, l) returns then
+// o + l <= len mathematically, for all usize o, l (a wrapped o + l is never accepted).
+// @unit name=bb_slice_rejects props=C19,C01 kind=bounded bound=buffer_bytes=12 fns=BooleanBuffer::slice timeout=200 mayreject=1
+#[kani::proof]
+#[kani::unwind(4)]
+#[kani::stub(alloc::fmt::format, stub_format)]
+fn bb_slice_rejects() {
+    let a: [u8; 12] = any_bytes();
+    let (off, len): (usize, usize) = (kani::any(), kani::any());
+    kani::assume(off <= 96 && len <= 96 - off);
+    let b = BooleanBuffer::new(Buffer::from_slice_ref(&a), off, len);
+    let (o, l): (usize, usize) = (kani::any(), kani::any());
+    let s = b.slice(o, l);
+    assert!(o as u128 + l as u128 <= len as u128);
+    kani::cover!(s.len() == 0);
+    kani::cover!(s.len() == 96);
+}
+
+// =============================================================================================
+// count_set_bits / has_true / has_false
+// =============================================================================================
+
+fn readers_grid<const OFF: usize, const LEN: usize, const N: usize, const SK: usize>() {
+    let a: [u8; N] = any_bytes();
+    let x = BooleanBuffer::new(mk(&a, SK), OFF, LEN);
+    set_skews([(SK + OFF / 8) % 8; 6]);
+    let mut cnt = 0usize;
+    let mut i = 0;
+    while i < LEN {
+        if bit(&a, 8 * SK + OFF + i) { cnt += 1; }
+        i += 1;
+    }
+    assert!(x.count_set_bits() == cnt);
+    assert!(x.has_true() == (cnt > 0));
+    assert!(x.has_false() == (cnt < LEN));
+    kani::cover!(cnt == LEN);
+    kani::cover!(cnt == 0);
+    kani::cover!(LEN < 2 || (cnt > 0 && cnt < LEN));
+}
+// Contract (C19) count_set_bits / has_true / has_false: equal to the number of true values / "some value
+// is true" / "some value is false" of the addressed bit sequence (naive loop over the model); all
+// bytes, including the bits before `offset`, after `offset+len` and the skipped bytes, are symbolic,
+// so the results provably do not depend on bits outside the addressed range.
+// @unit name=bb_readers_0_0_1_0 props=C19 kind=bounded bound=grid_(offset,len,bytes,ptr_skew)=(0,0,1,0) fns=BooleanBuffer::count_set_bits,BooleanBuffer::has_true,BooleanBuffer::has_false timeout=1500
+inst!(bb_readers_0_0_1_0, 8, readers_grid::<0, 0, 1, 0>());
+// @unit name=bb_readers_3_2_1_0 props=C19 kind=bounded bound=grid_(offset,len,bytes,ptr_skew)=(3,2,1,0) fns=BooleanBuffer::count_set_bits,BooleanBuffer::has_true,BooleanBuffer::has_false tier=thorough timeout=1500
+inst!(bb_readers_3_2_1_0, 8, readers_grid::<3, 2, 1, 0>());
+// @unit name=bb_readers_5_59_8_0 props=C19 kind=bounded bound=grid_(offset,len,bytes,ptr_skew)=(5,59,8,0) fns=BooleanBuffer::count_set_bits,BooleanBuffer::has_true,BooleanBuffer::has_false timeout=1500
+inst!(bb_readers_5_59_8_0, 62, readers_grid::<5, 59, 8, 0>());
+// @unit name=bb_readers_0_64_8_0 props=C19 kind=bounded bound=grid_(offset,len,bytes,ptr_skew)=(0,64,8,0) fns=BooleanBuffer::count_set_bits,BooleanBuffer::has_true,BooleanBuffer::has_false tier=thorough timeout=1500
+inst!(bb_readers_0_64_8_0, 67, readers_grid::<0, 64, 8, 0>());
+// @unit name=bb_readers_1_64_9_0 props=C19 kind=bounded bound=grid_(offset,len,bytes,ptr_skew)=(1,64,9,0) fns=BooleanBuffer::count_set_bits,BooleanBuffer::has_true,BooleanBuffer::has_false timeout=1500
+inst!(bb_readers_1_64_9_0, 67, readers_grid::<1, 64, 9, 0>());
+// @unit name=bb_readers_7_121_16_0 props=C19 kind=bounded bound=grid_(offset,len,bytes,ptr_skew)=(7,121,16,0) fns=BooleanBuffer::count_set_bits,BooleanBuffer::has_true,BooleanBuffer::has_false tier=thorough timeout=1500
+inst!(bb_readers_7_121_16_0, 124, readers_grid::<7, 121, 16, 0>());
+// @unit name=bb_readers_0_129_17_0 props=C19 kind=bounded bound=grid_(offset,len,bytes,ptr_skew)=(0,129,17,0) fns=BooleanBuffer::count_set_bits,BooleanBuffer::has_true,BooleanBuffer::has_false timeout=1500
+inst!(bb_readers_0_129_17_0, 132, readers_grid::<0, 129, 17, 0>());
+// @unit name=bb_readers_3_130_24_0 props=C19 kind=bounded bound=grid_(offset,len,bytes,ptr_skew)=(3,130,24,0) fns=BooleanBuffer::count_set_bits,BooleanBuffer::has_true,BooleanBuffer::has_false timeout=1500
+inst!(bb_readers_3_130_24_0, 133, readers_grid::<3, 130, 24, 0>());
+// @unit name=bb_readers_8_136_19_0 props=C19 kind=bounded bound=grid_(offset,len,bytes,ptr_skew)=(8,136,19,0) fns=BooleanBuffer::count_set_bits,BooleanBuffer::has_true,BooleanBuffer::has_false tier=thorough timeout=1500
+inst!(bb_readers_8_136_19_0, 139, readers_grid::<8, 136, 19, 0>());
+// @unit name=bb_readers_13_140_22_2 props=C19 kind=bounded bound=grid_(offset,len,bytes,ptr_skew)=(13,140,22,2) fns=BooleanBuffer::count_set_bits,BooleanBuffer::has_true,BooleanBuffer::has_false timeout=1500
+inst!(bb_readers_13_140_22_2, 143, readers_grid::<13, 140, 22, 2>());
+// @unit name=bb_readers_64_128_24_0 props=C19 kind=bounded bound=grid_(offset,len,bytes,ptr_skew)=(64,128,24,0) fns=BooleanBuffer::count_set_bits,BooleanBuffer::has_true,BooleanBuffer::has_false tier=thorough timeout=1500
+inst!(bb_readers_64_128_24_0, 131, readers_grid::<64, 128, 24, 0>());
+// @unit name=bb_readers_65_200_34_0 props=C19 kind=bounded bound=grid_(offset,len,bytes,ptr_skew)=(65,200,34,0) fns=BooleanBuffer::count_set_bits,BooleanBuffer::has_true,BooleanBuffer::has_false tier=thorough timeout=1500
+inst!(bb_readers_65_200_34_0, 203, readers_grid::<65, 200, 34, 0>());
+// @unit name=bb_readers_130_200_42_0 props=C19 kind=bounded bound=grid_(offset,len,bytes,ptr_skew)=(130,200,42,0) fns=BooleanBuffer::count_set_bits,BooleanBuffer::has_true,BooleanBuffer::has_false tier=thorough timeout=1500 note=not_confirmed_under_load
+inst!(bb_readers_130_200_42_0, 203, readers_grid::<130, 200, 42, 0>());
+// @unit name=bb_readers_63_65_17_1 props=C19 kind=bounded bound=grid_(offset,len,bytes,ptr_skew)=(63,65,17,1) fns=BooleanBuffer::count_set_bits,BooleanBuffer::has_true,BooleanBuffer::has_false tier=thorough timeout=1500
+inst!(bb_readers_63_65_17_1, 68, readers_grid::<63, 65, 17, 1>());
+
+fn readers_big<const OFF: usize, const LEN: usize, const N: usize>() {
+    let a: [u8; N] = kani::any();
+    let x = BooleanBuffer::new(mk(&a, 0), OFF, LEN);
+    set_skews([(OFF / 8) % 8; 6]);
+    let (mut any_true, mut any_false) = (false, false);
+    let mut i = 0;
+    while i < LEN {
+        if bit(&a, OFF + i) { any_true = true; } else { any_false = true; }
+        i += 1;
+    }
+    assert!(x.has_true() == any_true);
+    assert!(x.has_false() == any_false);
+    kani::cover!(!any_false);
+    kani::cover!(!any_true);
+    kani::cover!(any_true && any_false);
+}
+// Contract (C19) has_true / has_false on long buffers (more than 16 whole 64-bit chunks after the prefix,
+// so the 16-chunk block folds (CHUNK_FOLD_BLOCK_SIZE) and their remainders are executed): true exactly
+// when some addressed value is true / false; every byte symbolic, including bits outside the range.
+// @unit name=bb_readers_big_0_1100 props=C19 kind=bounded bound=grid_(offset,len,bytes)=(0,1100,138) fns=BooleanBuffer::has_true,BooleanBuffer::has_false tier=thorough timeout=1500 mem=6 note=not_confirmed_under_load
+inst!(bb_readers_big_0_1100, 1103, readers_big::<0, 1100, 138>());
+// @unit name=bb_readers_big_5_1090 props=C19 kind=bounded bound=grid_(offset,len,bytes)=(5,1090,140) fns=BooleanBuffer::has_true,BooleanBuffer::has_false tier=thorough timeout=1500 mem=6 note=not_confirmed_under_load
+inst!(bb_readers_big_5_1090, 1093, readers_big::<5, 1090, 140>());
+
+// =============================================================================================
+// find_nth_set_bit_position
+// =============================================================================================
+
+fn find_nth_grid<const OFF: usize, const LEN: usize, const N: usize, const START: usize, const NTH: usize>() {
+    let a: [u8; N] = any_bytes();
+    let x = BooleanBuffer::new(mk(&a, 0), OFF, LEN);
+    set_skews([((OFF + START) / 8) % 8; 6]);
+    let r = x.find_nth_set_bit_position(START, NTH);
+    // spec: scan the model from START; the answer is one past the NTH-th true value, or LEN
+    let mut seen = 0usize;
+    let mut expect = if NTH == 0 { START } else { LEN };
+    let mut done = NTH == 0;
+    let mut i = START;
+    while i < LEN {
+        if !done && bit(&a, OFF + i) {
+            seen += 1;
+            if seen == NTH { expect = i + 1; done = true; }
+        }
+        i += 1;
+    }
+    assert!(r == expect);
+    kani::cover!(NTH == 0 || START == LEN || (r == LEN && !done));
+    kani::cover!(NTH == 0 || START == LEN || (done && r < LEN));
+    kani::cover!(NTH == 0 || START == LEN || (done && r == LEN));
+}
+// Contract (C19) find_nth_set_bit_position(start, n): n == 0 gives start; otherwise one past the position
+// of the n-th true value at or after `start`, or len() when fewer than n true values remain
+// (contents symbolic; start <= len and n concrete per instance).
+// @unit name=bb_find_nth_3_9_2_1 props=C19 kind=bounded bound=grid_(offset,len,start,n)=(3,9,2,1) fns=BooleanBuffer::find_nth_set_bit_position tier=thorough timeout=1500 note=not_confirmed_under_load
+inst!(bb_find_nth_3_9_2_1, 12, find_nth_grid::<3, 9, 2, 2, 1>());
+// @unit name=bb_find_nth_60_8_1_2 props=C19 kind=bounded bound=grid_(offset,len,start,n)=(60,8,1,2) fns=BooleanBuffer::find_nth_set_bit_position tier=thorough timeout=1500 note=not_confirmed_under_load
+inst!(bb_find_nth_60_8_1_2, 11, find_nth_grid::<60, 8, 9, 1, 2>());
+// @unit name=bb_find_nth_0_8_0_3 props=C19 kind=bounded bound=grid_(offset,len,start,n)=(0,8,0,3) fns=BooleanBuffer::find_nth_set_bit_position tier=thorough timeout=1500 note=not_confirmed_under_load
+inst!(bb_find_nth_0_8_0_3, 11, find_nth_grid::<0, 8, 1, 0, 3>());
+// @unit name=bb_find_nth_5_12_12_1 props=C19 kind=bounded bound=grid_(offset,len,start,n)=(5,12,12,1) fns=BooleanBuffer::find_nth_set_bit_position tier=thorough timeout=1500 note=not_confirmed_under_load
+inst!(bb_find_nth_5_12_12_1, 15, find_nth_grid::<5, 12, 3, 12, 1>());
+// @unit name=bb_find_nth_3_9_4_0 props=C19 kind=bounded bound=grid_(offset,len,start,n)=(3,9,4,0) fns=BooleanBuffer::find_nth_set_bit_position tier=thorough timeout=1500 note=not_confirmed_under_load
+inst!(bb_find_nth_3_9_4_0, 12, find_nth_grid::<3, 9, 2, 4, 0>());
+// @unit name=bb_find_nth_61_6_0_6 props=C19 kind=bounded bound=grid_(offset,len,start,n)=(61,6,0,6) fns=BooleanBuffer::find_nth_set_bit_position tier=thorough timeout=1500 note=not_confirmed_under_load
+inst!(bb_find_nth_61_6_0_6, 9, find_nth_grid::<61, 6, 9, 0, 6>());
+
+// =============================================================================================
+// from_bitwise_unary_op / from_bits / Not
+// =============================================================================================
+
+fn unary_grid<const OFF: usize, const LEN: usize, const N: usize, const SK: usize>() {
+    let a: [u8; N] = any_bytes();
+    let t: [bool; 2] = [kani::any(), kani::any()];
+    let buf = mk(&a, SK);
+    set_skews([SK % 8; 6]);
+    let (m0, m1) = (mask(t[0]), mask(t[1]));
+    let z = BooleanBuffer::from_bitwise_unary_op(&buf, OFF, LEN, |x| (m0 & !x) | (m1 & x));
+    assert!(z.len() == LEN);
+    assert!(z.offset() + LEN <= 8 * z.values().len());
+    let (mut c1, mut c2) = (LEN == 0, LEN == 0);
+    if LEN > 0 {
+        let i: usize = kani::any();
+        kani::assume(i < LEN);
+        assert!(z.value(i) == t[bit(&a, 8 * SK + OFF + i) as usize]);
+        c1 = z.value(i) && !t[0];
+        c2 = !z.value(i) && t[0];
+    }
+    kani::cover!(c1);
+    kani::cover!(c2);
+}
+// Contract (C19) from_bitwise_unary_op(src, offset, len, op) for each of the 4 uniform bitwise unary
+// operations op (truth table t symbolic: identity, not, const-0, const-1): the result has length len,
+// lies inside its byte buffer, and bit i equals t[bit offset+i of src] for every i < len. All src
+// bytes (also outside the addressed range, which the code does feed to `op`) are symbolic.
+// @unit name=bb_unary_0_64_8_0 props=C19 kind=bounded bound=grid_(offset,len,bytes,ptr_skew)=(0,64,8,0)_path=aligned_exact fns=BooleanBuffer::from_bitwise_unary_op timeout=240
+inst!(bb_unary_0_64_8_0, 10, unary_grid::<0, 64, 8, 0>());
+// @unit name=bb_unary_3_70_16_0 props=C19 kind=bounded bound=grid_(offset,len,bytes,ptr_skew)=(3,70,16,0)_path=aligned_exact fns=BooleanBuffer::from_bitwise_unary_op timeout=240
+inst!(bb_unary_3_70_16_0, 10, unary_grid::<3, 70, 16, 0>());
+// @unit name=bb_unary_3_70_10_0 props=C19 kind=bounded bound=grid_(offset,len,bytes,ptr_skew)=(3,70,10,0)_path=aligned_suffix fns=BooleanBuffer::from_bitwise_unary_op timeout=240
+inst!(bb_unary_3_70_10_0, 10, unary_grid::<3, 70, 10, 0>());
+// @unit name=bb_unary_65_63_16_0 props=C19 kind=bounded bound=grid_(offset,len,bytes,ptr_skew)=(65,63,16,0)_path=aligned_exact fns=BooleanBuffer::from_bitwise_unary_op tier=thorough timeout=240
+inst!(bb_unary_65_63_16_0, 10, unary_grid::<65, 63, 16, 0>());
+// @unit name=bb_unary_64_65_17_0 props=C19 kind=bounded bound=grid_(offset,len,bytes,ptr_skew)=(64,65,17,0)_path=aligned_suffix fns=BooleanBuffer::from_bitwise_unary_op timeout=240
+inst!(bb_unary_64_65_17_0, 10, unary_grid::<64, 65, 17, 0>());
+// @unit name=bb_unary_3_70_11_1 props=C19 kind=bounded bound=grid_(offset,len,bytes,ptr_skew)=(3,70,11,1)_path=unaligned_chunks_rem fns=BooleanBuffer::from_bitwise_unary_op timeout=240
+inst!(bb_unary_3_70_11_1, 10, unary_grid::<3, 70, 11, 1>());
+// @unit name=bb_unary_5_120_19_3 props=C19 kind=bounded bound=grid_(offset,len,bytes,ptr_skew)=(5,120,19,3)_path=unaligned_chunks fns=BooleanBuffer::from_bitwise_unary_op tier=thorough timeout=240
+inst!(bb_unary_5_120_19_3, 10, unary_grid::<5, 120, 19, 3>());
+// @unit name=bb_unary_0_0_1_0 props=C19 kind=bounded bound=grid_(offset,len,bytes,ptr_skew)=(0,0,1,0)_path=aligned_exact fns=BooleanBuffer::from_bitwise_unary_op tier=thorough timeout=240 note=not_confirmed_under_load
+inst!(bb_unary_0_0_1_0, 10, unary_grid::<0, 0, 1, 0>());
+// @unit name=bb_unary_7_1_1_0 props=C19 kind=bounded bound=grid_(offset,len,bytes,ptr_skew)=(7,1,1,0)_path=aligned_suffix fns=BooleanBuffer::from_bitwise_unary_op tier=thorough timeout=240
+inst!(bb_unary_7_1_1_0, 10, unary_grid::<7, 1, 1, 0>());
+// @unit name=bb_unary_63_2_9_0 props=C19 kind=bounded bound=grid_(offset,len,bytes,ptr_skew)=(63,2,9,0)_path=aligned_suffix fns=BooleanBuffer::from_bitwise_unary_op tier=thorough timeout=240
+inst!(bb_unary_63_2_9_0, 10, unary_grid::<63, 2, 9, 0>());
+// @unit name=bb_unary_127_130_33_0 props=C19 kind=bounded bound=grid_(offset,len,bytes,ptr_skew)=(127,130,33,0)_path=aligned_suffix fns=BooleanBuffer::from_bitwise_unary_op tier=thorough timeout=240
+inst!(bb_unary_127_130_33_0, 10, unary_grid::<127, 130, 33, 0>());
+// @unit name=bb_unary_130_200_42_0 props=C19 kind=bounded bound=grid_(offset,len,bytes,ptr_skew)=(130,200,42,0)_path=aligned_suffix fns=BooleanBuffer::from_bitwise_unary_op tier=thorough timeout=240
+inst!(bb_unary_130_200_42_0, 10, unary_grid::<130, 200, 42, 0>());
+// @unit name=bb_unary_129_127_40_0 props=C19 kind=bounded bound=grid_(offset,len,bytes,ptr_skew)=(129,127,40,0)_path=aligned_exact fns=BooleanBuffer::from_bitwise_unary_op tier=thorough timeout=240
+inst!(bb_unary_129_127_40_0, 10, unary_grid::<129, 127, 40, 0>());
+// @unit name=bb_unary_9_200_28_1 props=C19 kind=bounded bound=grid_(offset,len,bytes,ptr_skew)=(9,200,28,1)_path=unaligned_chunks_rem fns=BooleanBuffer::from_bitwise_unary_op tier=thorough timeout=240
+inst!(bb_unary_9_200_28_1, 10, unary_grid::<9, 200, 28, 1>());
+
+fn not_grid<const OFF: usize, const LEN: usize, const N: usize, const SK: usize>() {
+    let a: [u8; N] = any_bytes();
+    let x = BooleanBuffer::new(mk(&a, SK), OFF, LEN);
+    set_skews([SK % 8; 6]);
+    let z = !&x;
+    let c = BooleanBuffer::from_bits(x.values(), OFF, LEN);
+    assert!(z.len() == LEN && c.len() == LEN);
+    assert!(z.offset() + LEN <= 8 * z.values().len() && c.offset() + LEN <= 8 * c.values().len());
+    let i: usize = kani::any();
+    kani::assume(i < LEN);
+    assert!(z.value(i) == !bit(&a, 8 * SK + OFF + i));
+    assert!(c.value(i) == bit(&a, 8 * SK + OFF + i));
+    assert!(x.value(i) == bit(&a, 8 * SK + OFF + i));
+    kani::cover!(z.value(i));
+    kani::cover!(!z.value(i));
+}
+// Contract (C19) `!&BooleanBuffer` and BooleanBuffer::from_bits: value i of the result is the negation /
+// a copy of value i of the operand, same length; the operand is unchanged.
+// @unit name=bb_not_3_70_10_0 props=C19 kind=bounded bound=grid_(offset,len,bytes,ptr_skew)=(3,70,10,0)_path=aligned_suffix fns=BooleanBuffer::not,BooleanBuffer::from_bits timeout=300
+inst!(bb_not_3_70_10_0, 10, not_grid::<3, 70, 10, 0>());
+// @unit name=bb_not_0_64_8_0 props=C19 kind=bounded bound=grid_(offset,len,bytes,ptr_skew)=(0,64,8,0)_path=aligned_exact fns=BooleanBuffer::not,BooleanBuffer::from_bits tier=thorough timeout=300
+inst!(bb_not_0_64_8_0, 10, not_grid::<0, 64, 8, 0>());
+// @unit name=bb_not_9_65_11_1 props=C19 kind=bounded bound=grid_(offset,len,bytes,ptr_skew)=(9,65,11,1)_path=unaligned_chunks_rem fns=BooleanBuffer::not,BooleanBuffer::from_bits tier=thorough timeout=300
+inst!(bb_not_9_65_11_1, 10, not_grid::<9, 65, 11, 1>());
+
+// =============================================================================================
+// from_bitwise_binary_op, & | ^
+// =============================================================================================
+
+/// one of the 16 uniform bitwise binary operations, selected by its truth table t[2a+b]
+fn tt2(t: [bool; 4]) -> impl Fn(u64, u64) -> u64 {
+    let (t0, t1, t2, t3) = (mask(t[0]), mask(t[1]), mask(t[2]), mask(t[3]));
+    move |a, b| (t0 & !a & !b) | (t1 & !a & b) | (t2 & a & !b) | (t3 & a & b)
+}
+
+fn bin_grid<const OL: usize, const OR: usize, const LEN: usize, const NL: usize, const NR: usize, const SKL: usize, const SKR: usize>() {
+    let a: [u8; NL] = any_bytes();
+    let b: [u8; NR] = any_bytes();
+    let t: [bool; 4] = [kani::any(), kani::any(), kani::any(), kani::any()];
+    let (ba, bb) = (mk(&a, SKL), mk(&b, SKR));
+    set_skews([SKL % 8, SKR % 8, SKL % 8, SKR % 8, 0, 0]);
+    let z = BooleanBuffer::from_bitwise_binary_op(&ba, OL, &bb, OR, LEN, tt2(t));
+    assert!(z.len() == LEN);
+    assert!(z.offset() + LEN <= 8 * z.values().len());
+    let (mut c1, mut c2) = (LEN == 0, LEN == 0);
+    if LEN > 0 {
+        let i: usize = kani::any();
+        kani::assume(i < LEN);
+        let (x, y) = (bit(&a, 8 * SKL + OL + i), bit(&b, 8 * SKR + OR + i));
+        assert!(z.value(i) == t[2 * (x as usize) + (y as usize)]);
+        c1 = z.value(i) && x && !y;
+        c2 = !z.value(i) && y;
+    }
+    kani::cover!(c1);
+    kani::cover!(c2);
+}
+// Contract (C19) from_bitwise_binary_op(l, ol, r, or, len, op) for each of the 16 uniform bitwise binary
+// operations (truth table t symbolic): result length len, inside its byte buffer, and bit i equals
+// t[l-bit ol+i][r-bit or+i] for every i < len. All bytes of both inputs are symbolic, including the
+// bits outside the addressed ranges (which the 64-bit fast paths do pass to `op`): the result does
+// not depend on them. Paths (label in the bound): aligned_exact / aligned_suffix (ol%64 == or%64,
+// 8-byte aligned data pointers, without / with a byte suffix), unaligned_chunks (ol%64 == or%64,
+// misaligned data pointer: chunks_exact fallback), bitchunks (ol%64 != or%64).
+// @unit name=bb_bin_0_0_64_8_8_0_0 props=C19 kind=bounded bound=grid_(ol,or,len,bytes_l,bytes_r,skew_l,skew_r)=(0,0,64,8,8,0,0)_path=aligned_exact fns=BooleanBuffer::from_bitwise_binary_op timeout=240
+inst!(bb_bin_0_0_64_8_8_0_0, 10, bin_grid::<0, 0, 64, 8, 8, 0, 0>());
+// @unit name=bb_bin_3_3_70_16_16_0_0 props=C19 kind=bounded bound=grid_(ol,or,len,bytes_l,bytes_r,skew_l,skew_r)=(3,3,70,16,16,0,0)_path=aligned_exact fns=BooleanBuffer::from_bitwise_binary_op timeout=240
+inst!(bb_bin_3_3_70_16_16_0_0, 10, bin_grid::<3, 3, 70, 16, 16, 0, 0>());
+// @unit name=bb_bin_3_67_70_10_18_0_0 props=C19 kind=bounded bound=grid_(ol,or,len,bytes_l,bytes_r,skew_l,skew_r)=(3,67,70,10,18,0,0)_path=aligned_suffix fns=BooleanBuffer::from_bitwise_binary_op timeout=240
+inst!(bb_bin_3_67_70_10_18_0_0, 10, bin_grid::<3, 67, 70, 10, 18, 0, 0>());
+// @unit name=bb_bin_0_64_65_9_24_0_0 props=C19 kind=bounded bound=grid_(ol,or,len,bytes_l,bytes_r,skew_l,skew_r)=(0,64,65,9,24,0,0)_path=aligned_suffix fns=BooleanBuffer::from_bitwise_binary_op timeout=240
+inst!(bb_bin_0_64_65_9_24_0_0, 10, bin_grid::<0, 64, 65, 9, 24, 0, 0>());
+// @unit name=bb_bin_3_3_70_11_17_1_1 props=C19 kind=bounded bound=grid_(ol,or,len,bytes_l,bytes_r,skew_l,skew_r)=(3,3,70,11,17,1,1)_path=unaligned_chunks_rem fns=BooleanBuffer::from_bitwise_binary_op timeout=240
+inst!(bb_bin_3_3_70_11_17_1_1, 10, bin_grid::<3, 3, 70, 11, 17, 1, 1>());
+// @unit name=bb_bin_3_3_70_10_19_0_3 props=C19 kind=bounded bound=grid_(ol,or,len,bytes_l,bytes_r,skew_l,skew_r)=(3,3,70,10,19,0,3)_path=unaligned_chunks_rem fns=BooleanBuffer::from_bitwise_binary_op tier=thorough timeout=240
+inst!(bb_bin_3_3_70_10_19_0_3, 10, bin_grid::<3, 3, 70, 10, 19, 0, 3>());
+// @unit name=bb_bin_5_69_59_9_25_1_1 props=C19 kind=bounded bound=grid_(ol,or,len,bytes_l,bytes_r,skew_l,skew_r)=(5,69,59,9,25,1,1)_path=unaligned_chunks fns=BooleanBuffer::from_bitwise_binary_op tier=thorough timeout=240
+inst!(bb_bin_5_69_59_9_25_1_1, 10, bin_grid::<5, 69, 59, 9, 25, 1, 1>());
+// @unit name=bb_bin_3_5_12_2_3_0_0 props=C19 kind=bounded bound=grid_(ol,or,len,bytes_l,bytes_r,skew_l,skew_r)=(3,5,12,2,3,0,0)_path=bitchunks fns=BooleanBuffer::from_bitwise_binary_op timeout=240
+inst!(bb_bin_3_5_12_2_3_0_0, 10, bin_grid::<3, 5, 12, 2, 3, 0, 0>());
+// @unit name=bb_bin_0_9_65_9_10_0_0 props=C19 kind=bounded bound=grid_(ol,or,len,bytes_l,bytes_r,skew_l,skew_r)=(0,9,65,9,10,0,0)_path=bitchunks fns=BooleanBuffer::from_bitwise_binary_op timeout=240
+inst!(bb_bin_0_9_65_9_10_0_0, 10, bin_grid::<0, 9, 65, 9, 10, 0, 0>());
+// @unit name=bb_bin_63_0_64_16_8_0_0 props=C19 kind=bounded bound=grid_(ol,or,len,bytes_l,bytes_r,skew_l,skew_r)=(63,0,64,16,8,0,0)_path=bitchunks fns=BooleanBuffer::from_bitwise_binary_op timeout=240
+inst!(bb_bin_63_0_64_16_8_0_0, 10, bin_grid::<63, 0, 64, 16, 8, 0, 0>());
+// @unit name=bb_bin_1_66_128_17_25_0_0 props=C19 kind=bounded bound=grid_(ol,or,len,bytes_l,bytes_r,skew_l,skew_r)=(1,66,128,17,25,0,0)_path=bitchunks fns=BooleanBuffer::from_bitwise_binary_op tier=thorough timeout=240
+inst!(bb_bin_1_66_128_17_25_0_0, 10, bin_grid::<1, 66, 128, 17, 25, 0, 0>());
+// @unit name=bb_bin_63_127_2_9_17_0_0 props=C19 kind=bounded bound=grid_(ol,or,len,bytes_l,bytes_r,skew_l,skew_r)=(63,127,2,9,17,0,0)_path=aligned_suffix fns=BooleanBuffer::from_bitwise_binary_op tier=thorough timeout=240
+inst!(bb_bin_63_127_2_9_17_0_0, 10, bin_grid::<63, 127, 2, 9, 17, 0, 0>());
+// @unit name=bb_bin_64_0_63_16_8_0_0 props=C19 kind=bounded bound=grid_(ol,or,len,bytes_l,bytes_r,skew_l,skew_r)=(64,0,63,16,8,0,0)_path=aligned_exact fns=BooleanBuffer::from_bitwise_binary_op tier=thorough timeout=240
+inst!(bb_bin_64_0_63_16_8_0_0, 10, bin_grid::<64, 0, 63, 16, 8, 0, 0>());
+// @unit name=bb_bin_0_0_0_1_1_0_0 props=C19 kind=bounded bound=grid_(ol,or,len,bytes_l,bytes_r,skew_l,skew_r)=(0,0,0,1,1,0,0)_path=aligned_exact fns=BooleanBuffer::from_bitwise_binary_op tier=thorough timeout=240 note=not_confirmed_under_load
+inst!(bb_bin_0_0_0_1_1_0_0, 10, bin_grid::<0, 0, 0, 1, 1, 0, 0>());
+// @unit name=bb_bin_7_7_1_1_1_0_0 props=C19 kind=bounded bound=grid_(ol,or,len,bytes_l,bytes_r,skew_l,skew_r)=(7,7,1,1,1,0,0)_path=aligned_suffix fns=BooleanBuffer::from_bitwise_binary_op tier=thorough timeout=240
+inst!(bb_bin_7_7_1_1_1_0_0, 10, bin_grid::<7, 7, 1, 1, 1, 0, 0>());
+// @unit name=bb_bin_130_2_200_42_26_0_0 props=C19 kind=bounded bound=grid_(ol,or,len,bytes_l,bytes_r,skew_l,skew_r)=(130,2,200,42,26,0,0)_path=aligned_suffix fns=BooleanBuffer::from_bitwise_binary_op tier=thorough timeout=240
+inst!(bb_bin_130_2_200_42_26_0_0, 10, bin_grid::<130, 2, 200, 42, 26, 0, 0>());
+// @unit name=bb_bin_129_65_127_32_24_0_0 props=C19 kind=bounded bound=grid_(ol,or,len,bytes_l,bytes_r,skew_l,skew_r)=(129,65,127,32,24,0,0)_path=aligned_exact fns=BooleanBuffer::from_bitwise_binary_op tier=thorough timeout=240
+inst!(bb_bin_129_65_127_32_24_0_0, 10, bin_grid::<129, 65, 127, 32, 24, 0, 0>());
+// @unit name=bb_bin_127_128_129_32_33_0_0 props=C19 kind=bounded bound=grid_(ol,or,len,bytes_l,bytes_r,skew_l,skew_r)=(127,128,129,32,33,0,0)_path=bitchunks fns=BooleanBuffer::from_bitwise_binary_op tier=thorough timeout=240
+inst!(bb_bin_127_128_129_32_33_0_0, 10, bin_grid::<127, 128, 129, 32, 33, 0, 0>());
+// @unit name=bb_bin_8_9_200_26_27_0_0 props=C19 kind=bounded bound=grid_(ol,or,len,bytes_l,bytes_r,skew_l,skew_r)=(8,9,200,26,27,0,0)_path=bitchunks fns=BooleanBuffer::from_bitwise_binary_op tier=thorough timeout=240
+inst!(bb_bin_8_9_200_26_27_0_0, 10, bin_grid::<8, 9, 200, 26, 27, 0, 0>());
+// @unit name=bb_bin_65_1_130_25_17_0_0 props=C19 kind=bounded bound=grid_(ol,or,len,bytes_l,bytes_r,skew_l,skew_r)=(65,1,130,25,17,0,0)_path=aligned_suffix fns=BooleanBuffer::from_bitwise_binary_op tier=thorough timeout=240
+inst!(bb_bin_65_1_130_25_17_0_0, 10, bin_grid::<65, 1, 130, 25, 17, 0, 0>());
+
+fn bitop_grid<const OP: u8, const OL: usize, const OR: usize, const LEN: usize, const NL: usize, const NR: usize, const SKL: usize, const SKR: usize>() {
+    let a: [u8; NL] = any_bytes();
+    let b: [u8; NR] = any_bytes();
+    let x = BooleanBuffer::new(mk(&a, SKL), OL, LEN);
+    let y = BooleanBuffer::new(mk(&b, SKR), OR, LEN);
+    set_skews([SKL % 8, SKR % 8, SKL % 8, SKR % 8, 0, 0]);
+    let z = match OP { 0 => &x & &y, 1 => &x | &y, _ => &x ^ &y };
+    assert!(z.len() == LEN);
+    assert!(z.offset() + LEN <= 8 * z.values().len());
+    let i: usize = kani::any();
+    kani::assume(i < LEN);
+    let (p, q) = (bit(&a, 8 * SKL + OL + i), bit(&b, 8 * SKR + OR + i));
+    assert!(z.value(i) == match OP { 0 => p & q, 1 => p | q, _ => p ^ q });
+    assert!(x.value(i) == p && y.value(i) == q);
+    kani::cover!(z.value(i));
+    kani::cover!(!z.value(i));
+}
+// Contract (C19) `&a & &b`, `&a | &b`, `&a ^ &b` on BooleanBuffers of equal length: value i of the
+// result is the and / or / xor of the operands' values i; same length; result inside its byte buffer;
+// operands unchanged. (OP 0/1/2 = and/or/xor; goes through buffer_bin_and/or/xor including the
+// re-slicing to offset 0 when the fast path returns a non-zero offset.)
+// @unit name=bb_and_3_67_70_10_18_0_0 props=C19 kind=bounded bound=grid_(ol,or,len,bytes_l,bytes_r,skew_l,skew_r)=(3,67,70,10,18,0,0)_path=aligned_suffix fns=BooleanBuffer::bitand,buffer_bin_and timeout=300
+inst!(bb_and_3_67_70_10_18_0_0, 10, bitop_grid::<0, 3, 67, 70, 10, 18, 0, 0>());
+// @unit name=bb_or_3_5_12_2_3_0_0 props=C19 kind=bounded bound=grid_(ol,or,len,bytes_l,bytes_r,skew_l,skew_r)=(3,5,12,2,3,0,0)_path=bitchunks fns=BooleanBuffer::bitor,buffer_bin_or timeout=300
+inst!(bb_or_3_5_12_2_3_0_0, 10, bitop_grid::<1, 3, 5, 12, 2, 3, 0, 0>());
+// @unit name=bb_xor_0_64_65_9_24_0_0 props=C19 kind=bounded bound=grid_(ol,or,len,bytes_l,bytes_r,skew_l,skew_r)=(0,64,65,9,24,0,0)_path=aligned_suffix fns=BooleanBuffer::bitxor,buffer_bin_xor timeout=300
+inst!(bb_xor_0_64_65_9_24_0_0, 10, bitop_grid::<2, 0, 64, 65, 9, 24, 0, 0>());
+// @unit name=bb_and_0_9_65_9_10_0_0 props=C19 kind=bounded bound=grid_(ol,or,len,bytes_l,bytes_r,skew_l,skew_r)=(0,9,65,9,10,0,0)_path=bitchunks fns=BooleanBuffer::bitand,buffer_bin_and tier=thorough timeout=300
+inst!(bb_and_0_9_65_9_10_0_0, 10, bitop_grid::<0, 0, 9, 65, 9, 10, 0, 0>());
+// @unit name=bb_or_3_3_70_11_17_1_1 props=C19 kind=bounded bound=grid_(ol,or,len,bytes_l,bytes_r,skew_l,skew_r)=(3,3,70,11,17,1,1)_path=unaligned_chunks_rem fns=BooleanBuffer::bitor,buffer_bin_or tier=thorough timeout=300
+inst!(bb_or_3_3_70_11_17_1_1, 10, bitop_grid::<1, 3, 3, 70, 11, 17, 1, 1>());
+// @unit name=bb_xor_3_3_70_16_16_0_0 props=C19 kind=bounded bound=grid_(ol,or,len,bytes_l,bytes_r,skew_l,skew_r)=(3,3,70,16,16,0,0)_path=aligned_exact fns=BooleanBuffer::bitxor,buffer_bin_xor tier=thorough timeout=300
+inst!(bb_xor_3_3_70_16_16_0_0, 10, bitop_grid::<2, 3, 3, 70, 16, 16, 0, 0>());
+// @unit name=bb_and_8_72_20_4_12_0_0 props=C19 kind=bounded bound=grid_(ol,or,len,bytes_l,bytes_r,skew_l,skew_r)=(8,72,20,4,12,0,0)_path=aligned_suffix fns=BooleanBuffer::bitand,buffer_bin_and tier=thorough timeout=300
+inst!(bb_and_8_72_20_4_12_0_0, 10, bitop_grid::<0, 8, 72, 20, 4, 12, 0, 0>());
+
+// =============================================================================================
+// &= |= ^=  (bitwise_bin_op_assign)
+// =============================================================================================
+
+fn assign_grid<const OP: u8, const SHARED: bool, const OL: usize, const OR: usize, const LEN: usize, const NL: usize, const NR: usize>() {
+    let a: [u8; NL] = any_bytes();
+    let b: [u8; NR] = any_bytes();
+    let ba = Buffer::from_slice_ref(&a);
+    let orig_ptr = ba.as_ptr();
+    let keep = if SHARED { Some(ba.clone()) } else { None };
+    let mut x = BooleanBuffer::new(ba, OL, LEN);
+    let y = BooleanBuffer::new(mk(&b, 0), OR, LEN);
+    set_skews([0; 6]);
+    match OP { 0 => x &= &y, 1 => x |= &y, _ => x ^= &y }
+    assert!(x.len() == LEN);
+    assert!(x.offset() + LEN <= 8 * x.values().len());
+    let i: usize = kani::any();
+    kani::assume(i < LEN);
+    let (p, q) = (bit(&a, OL + i), bit(&b, OR + i));
+    assert!(x.value(i) == match OP { 0 => p & q, 1 => p | q, _ => p ^ q });
+    assert!(y.value(i) == q);
+    // frame
+    let j: usize = kani::any();
+    kani::assume(j < 8 * NL);
+    if let Some(k) = &keep {
+        // the other owner of the (formerly shared) bytes sees no change at all
+        assert!(k.len() == NL && bit(k.as_slice(), j) == bit(&a, j));
+    }
+    if x.values().as_ptr() == orig_ptr {
+        // updated in place: every bit outside [OL, OL+LEN) of the byte buffer is unchanged
+        assert!(!SHARED);
+        assert!(x.offset() == OL && x.values().len() == NL);
+        if j < OL || j >= OL + LEN { assert!(bit(x.values(), j) == bit(&a, j)); }
+    }
+    let in_place = x.values().as_ptr() == orig_ptr;
+    kani::cover!(SHARED || OL == 0 || (in_place && j < OL));
+    kani::cover!(SHARED || OL + LEN == 8 * NL || (in_place && j >= OL + LEN));
+    kani::cover!(SHARED || in_place);
+    kani::cover!(x.value(i));
+    kani::cover!(!x.value(i));
+}
+// Contract (C19) `a &= &b`, `a |= &b`, `a ^= &b`: afterwards value i of `a` is the and / or / xor of the
+// old value i of `a` and value i of `b`, same length, `b` unchanged. Frame: when `a` is the unique
+// owner of its bytes and is updated in place, every bit of its byte buffer outside
+// [offset, offset+len) is unchanged; when the bytes are shared with another Buffer, that other Buffer
+// still reads exactly the old bytes.
+// @unit name=bb_and_assign_unique_3_5_12_3_3 props=C19 kind=bounded bound=grid_(ol,or,len,bytes_l,bytes_r)=(3,5,12,3,3)_unique_owner fns=BooleanBuffer::bitwise_bin_op_assign,BooleanBuffer::bitand_assign timeout=400
+inst!(bb_and_assign_unique_3_5_12_3_3, 12, assign_grid::<0, false, 3, 5, 12, 3, 3>());
+// @unit name=bb_or_assign_unique_8_3_70_10_10 props=C19 kind=bounded bound=grid_(ol,or,len,bytes_l,bytes_r)=(8,3,70,10,10)_unique_owner fns=BooleanBuffer::bitwise_bin_op_assign,BooleanBuffer::bitor_assign timeout=400
+inst!(bb_or_assign_unique_8_3_70_10_10, 12, assign_grid::<1, false, 8, 3, 70, 10, 10>());
+// @unit name=bb_xor_assign_shared_3_3_70_16_16 props=C19 kind=bounded bound=grid_(ol,or,len,bytes_l,bytes_r)=(3,3,70,16,16)_shared_bytes fns=BooleanBuffer::bitwise_bin_op_assign,BooleanBuffer::bitxor_assign tier=thorough timeout=400 note=not_confirmed_under_load
+inst!(bb_xor_assign_shared_3_3_70_16_16, 12, assign_grid::<2, true, 3, 3, 70, 16, 16>());
+// @unit name=bb_and_assign_shared_3_5_12_3_3 props=C19 kind=bounded bound=grid_(ol,or,len,bytes_l,bytes_r)=(3,5,12,3,3)_shared_bytes fns=BooleanBuffer::bitwise_bin_op_assign,BooleanBuffer::bitand_assign tier=thorough timeout=400 note=not_confirmed_under_load
+inst!(bb_and_assign_shared_3_5_12_3_3, 12, assign_grid::<0, true, 3, 5, 12, 3, 3>());
+// @unit name=bb_xor_assign_unique_5_64_130_17_25 props=C19 kind=bounded bound=grid_(ol,or,len,bytes_l,bytes_r)=(5,64,130,17,25)_unique_owner fns=BooleanBuffer::bitwise_bin_op_assign,BooleanBuffer::bitxor_assign tier=thorough timeout=400
+inst!(bb_xor_assign_unique_5_64_130_17_25, 12, assign_grid::<2, false, 5, 64, 130, 17, 25>());
+// @unit name=bb_or_assign_unique_0_0_64_8_8 props=C19 kind=bounded bound=grid_(ol,or,len,bytes_l,bytes_r)=(0,0,64,8,8)_unique_owner fns=BooleanBuffer::bitwise_bin_op_assign,BooleanBuffer::bitor_assign tier=thorough timeout=400 note=not_confirmed_under_load
+inst!(bb_or_assign_unique_0_0_64_8_8, 12, assign_grid::<1, false, 0, 0, 64, 8, 8>());
+// @unit name=bb_and_assign_unique_63_1_2_9_1 props=C19 kind=bounded bound=grid_(ol,or,len,bytes_l,bytes_r)=(63,1,2,9,1)_unique_owner fns=BooleanBuffer::bitwise_bin_op_assign,BooleanBuffer::bitand_assign tier=thorough timeout=400
+inst!(bb_and_assign_unique_63_1_2_9_1, 12, assign_grid::<0, false, 63, 1, 2, 9, 1>());
+// @unit name=bb_or_assign_shared_0_9_65_9_10 props=C19 kind=bounded bound=grid_(ol,or,len,bytes_l,bytes_r)=(0,9,65,9,10)_shared_bytes fns=BooleanBuffer::bitwise_bin_op_assign,BooleanBuffer::bitor_assign tier=thorough timeout=400 note=not_confirmed_under_load
+inst!(bb_or_assign_shared_0_9_65_9_10, 12, assign_grid::<1, true, 0, 9, 65, 9, 10>());
+// @unit name=bb_xor_assign_unique_1_0_7_1_1 props=C19 kind=bounded bound=grid_(ol,or,len,bytes_l,bytes_r)=(1,0,7,1,1)_unique_owner fns=BooleanBuffer::bitwise_bin_op_assign,BooleanBuffer::bitxor_assign tier=thorough timeout=400 note=not_confirmed_under_load
+inst!(bb_xor_assign_unique_1_0_7_1_1, 12, assign_grid::<2, false, 1, 0, 7, 1, 1>());
+
+// =============================================================================================
+// PartialEq
+// =============================================================================================
+
+fn eq_grid<const OL: usize, const OR: usize, const LEN: usize, const NL: usize, const NR: usize>() {
+    let a: [u8; NL] = any_bytes();
+    let b: [u8; NR] = any_bytes();
+    let x = BooleanBuffer::new(mk(&a, 0), OL, LEN);
+    let y = BooleanBuffer::new(mk(&b, 0), OR, LEN);
+    let r = x == y;
+    let mut same = true;
+    let mut i = 0;
+    while i < LEN {
+        if bit(&a, OL + i) != bit(&b, OR + i) { same = false; }
+        i += 1;
+    }
+    assert!(r == same);
+    assert!((y == x) == same);
+    kani::cover!(r);
+    kani::cover!(LEN == 0 || !r);
+}
+// Contract (C19) BooleanBuffer == BooleanBuffer (equal lengths): true exactly when every value i agrees
+// (both directions, both argument orders); bits outside the two addressed ranges are symbolic and
+// never influence the answer.
+// @unit name=bb_eq_0_0_64 props=C19 kind=bounded bound=grid_(ol,or,len)=(0,0,64) fns=BooleanBuffer::eq tier=thorough timeout=300
+inst!(bb_eq_0_0_64, 67, eq_grid::<0, 0, 64, 9, 9>());
+// @unit name=bb_eq_3_5_12 props=C19 kind=bounded bound=grid_(ol,or,len)=(3,5,12) fns=BooleanBuffer::eq timeout=300
+inst!(bb_eq_3_5_12, 15, eq_grid::<3, 5, 12, 3, 4>());
+// @unit name=bb_eq_0_9_65 props=C19 kind=bounded bound=grid_(ol,or,len)=(0,9,65) fns=BooleanBuffer::eq timeout=300
+inst!(bb_eq_0_9_65, 68, eq_grid::<0, 9, 65, 10, 11>());
+// @unit name=bb_eq_7_7_130 props=C19 kind=bounded bound=grid_(ol,or,len)=(7,7,130) fns=BooleanBuffer::eq tier=thorough timeout=300
+inst!(bb_eq_7_7_130, 133, eq_grid::<7, 7, 130, 19, 19>());
+// @unit name=bb_eq_63_1_129 props=C19 kind=bounded bound=grid_(ol,or,len)=(63,1,129) fns=BooleanBuffer::eq tier=thorough timeout=300
+inst!(bb_eq_63_1_129, 132, eq_grid::<63, 1, 129, 25, 18>());
+// @unit name=bb_eq_0_0_0 props=C19 kind=bounded bound=grid_(ol,or,len)=(0,0,0) fns=BooleanBuffer::eq tier=thorough timeout=300
+inst!(bb_eq_0_0_0, 12, eq_grid::<0, 0, 0, 2, 2>());
+// @unit name=bb_eq_130_65_200 props=C19 kind=bounded bound=grid_(ol,or,len)=(130,65,200) fns=BooleanBuffer::eq tier=thorough timeout=300
+inst!(bb_eq_130_65_200, 203, eq_grid::<130, 65, 200, 43, 35>());
+// @unit name=bb_eq_5_0_1 props=C19 kind=bounded bound=grid_(ol,or,len)=(5,0,1) fns=BooleanBuffer::eq tier=thorough timeout=300
+inst!(bb_eq_5_0_1, 12, eq_grid::<5, 0, 1, 2, 2>());
+// @unit name=bb_eq_1_2_63 props=C19 kind=bounded bound=grid_(ol,or,len)=(1,2,63) fns=BooleanBuffer::eq tier=thorough timeout=300
+inst!(bb_eq_1_2_63, 66, eq_grid::<1, 2, 63, 9, 10>());
+// @unit name=bb_eq_3_3_128 props=C19 kind=bounded bound=grid_(ol,or,len)=(3,3,128) fns=BooleanBuffer::eq timeout=300
+inst!(bb_eq_3_3_128, 131, eq_grid::<3, 3, 128, 18, 18>());
+
+fn eq_len_grid<const OL: usize, const LEN1: usize, const LEN2: usize, const N: usize>() {
+    let a: [u8; N] = any_bytes();
+    let buf = mk(&a, 0);
+    let x = BooleanBuffer::new(buf.clone(), OL, LEN1);
+    let y = BooleanBuffer::new(buf, OL, LEN2);
+    assert!(!(x == y) && !(y == x));
+    kani::cover!(x.len() != y.len());
+}
+// Contract (C19) BooleanBuffer == BooleanBuffer with different lengths is false, even when one is a
+// prefix of the other over the same bytes.
+// @unit name=bb_eq_len_3_64_65 props=C19 kind=bounded bound=grid_(offset,len1,len2)=(3,64,65) fns=BooleanBuffer::eq timeout=200
+inst!(bb_eq_len_3_64_65, 12, eq_len_grid::<3, 64, 65, 9>());
+// @unit name=bb_eq_len_0_0_1 props=C19 kind=bounded bound=grid_(offset,len1,len2)=(0,0,1) fns=BooleanBuffer::eq tier=thorough timeout=200
+inst!(bb_eq_len_0_0_1, 12, eq_len_grid::<0, 0, 1, 1>());
+// @unit name=bb_eq_len_5_128_127 props=C19 kind=bounded bound=grid_(offset,len1,len2)=(5,128,127) fns=BooleanBuffer::eq tier=thorough timeout=200
+inst!(bb_eq_len_5_128_127, 12, eq_len_grid::<5, 128, 127, 17>());
+
+// =============================================================================================
+// collect_bool, From<&[bool]>, FromIterator<bool>
+// =============================================================================================
+
+fn collect_grid<const LEN: usize>() {
+    let m: [bool; LEN] = kani::any();
+    let mut calls = 0usize;
+    let z = BooleanBuffer::collect_bool(LEN, |i| { calls += 1; m[i] });
+    assert!(z.len() == LEN && calls == LEN);
+    assert!(z.offset() + LEN <= 8 * z.values().len());
+    let (mut c1, mut c2) = (LEN == 0, LEN == 0);
+    if LEN > 0 {
+        let i: usize = kani::any();
+        kani::assume(i < LEN);
+        assert!(z.value(i) == m[i]);
+        c1 = z.value(i);
+        c2 = !z.value(i);
+    }
+    kani::cover!(c1);
+    kani::cover!(c2);
+}
+// Contract (C19) BooleanBuffer::collect_bool(len, f): length len, value i == f(i) for every i < len, f is
+// called exactly len times (each index in 0..len, never outside: the model array would panic).
+// @unit name=bb_collect_bool_0 props=C19,C01 kind=bounded bound=grid_len=0 fns=BooleanBuffer::collect_bool,MutableBuffer::collect_bool tier=thorough timeout=300 note=not_confirmed_under_load
+inst!(bb_collect_bool_0, 66, collect_grid::<0>());
+// @unit name=bb_collect_bool_1 props=C19,C01 kind=bounded bound=grid_len=1 fns=BooleanBuffer::collect_bool,MutableBuffer::collect_bool tier=thorough timeout=300
+inst!(bb_collect_bool_1, 66, collect_grid::<1>());
+// @unit name=bb_collect_bool_63 props=C19,C01 kind=bounded bound=grid_len=63 fns=BooleanBuffer::collect_bool,MutableBuffer::collect_bool tier=thorough timeout=300
+inst!(bb_collect_bool_63, 66, collect_grid::<63>());
+// @unit name=bb_collect_bool_64 props=C19,C01 kind=bounded bound=grid_len=64 fns=BooleanBuffer::collect_bool,MutableBuffer::collect_bool timeout=300
+inst!(bb_collect_bool_64, 66, collect_grid::<64>());
+// @unit name=bb_collect_bool_65 props=C19,C01 kind=bounded bound=grid_len=65 fns=BooleanBuffer::collect_bool,MutableBuffer::collect_bool timeout=300
+inst!(bb_collect_bool_65, 67, collect_grid::<65>());
+// @unit name=bb_collect_bool_128 props=C19,C01 kind=bounded bound=grid_len=128 fns=BooleanBuffer::collect_bool,MutableBuffer::collect_bool tier=thorough timeout=300
+inst!(bb_collect_bool_128, 130, collect_grid::<128>());
+// @unit name=bb_collect_bool_130 props=C19,C01 kind=bounded bound=grid_len=130 fns=BooleanBuffer::collect_bool,MutableBuffer::collect_bool tier=thorough timeout=300
+inst!(bb_collect_bool_130, 132, collect_grid::<130>());
+// @unit name=bb_collect_bool_200 props=C19,C01 kind=bounded bound=grid_len=200 fns=BooleanBuffer::collect_bool,MutableBuffer::collect_bool tier=thorough timeout=300
+inst!(bb_collect_bool_200, 202, collect_grid::<200>());
+
+fn from_bools_grid<const LEN: usize, const ITER: bool>() {
+    let m: [bool; LEN] = kani::any();
+    let z: BooleanBuffer = if ITER { m.iter().copied().collect() } else { BooleanBuffer::from(&m[..]) };
+    assert!(z.len() == LEN);
+    assert!(z.offset() + LEN <= 8 * z.values().len());
+    let (mut c1, mut c2) = (LEN == 0, LEN == 0);
+    if LEN > 0 {
+        let i: usize = kani::any();
+        kani::assume(i < LEN);
+        assert!(z.value(i) == m[i]);
+        c1 = z.value(i);
+        c2 = !z.value(i);
+    }
+    kani::cover!(c1);
+    kani::cover!(c2);
+}
+// Contract (C19/C01) BooleanBuffer::from(&[bool]) and FromIterator<bool>: length = number of items,
+// value i = i-th item.
+// @unit name=bb_from_slice_0 props=C19,C01 kind=bounded bound=grid_len=0 fns=BooleanBuffer::from tier=thorough timeout=300 note=not_confirmed_under_load
+inst!(bb_from_slice_0, 3, from_bools_grid::<0, false>());
+// @unit name=bb_from_slice_9 props=C19,C01 kind=bounded bound=grid_len=9 fns=BooleanBuffer::from timeout=300
+inst!(bb_from_slice_9, 12, from_bools_grid::<9, false>());
+// @unit name=bb_from_slice_65 props=C19,C01 kind=bounded bound=grid_len=65 fns=BooleanBuffer::from tier=thorough timeout=300
+inst!(bb_from_slice_65, 68, from_bools_grid::<65, false>());
+// @unit name=bb_from_iter_9 props=C19,C01 kind=bounded bound=grid_len=9 fns=BooleanBuffer::from_iter timeout=300
+inst!(bb_from_iter_9, 12, from_bools_grid::<9, true>());
+// @unit name=bb_from_iter_65 props=C19,C01 kind=bounded bound=grid_len=65 fns=BooleanBuffer::from_iter tier=thorough timeout=300
+inst!(bb_from_iter_65, 68, from_bools_grid::<65, true>());
+// @unit name=bb_from_slice_130 props=C19,C01 kind=bounded bound=grid_len=130 fns=BooleanBuffer::from tier=thorough timeout=300
+inst!(bb_from_slice_130, 133, from_bools_grid::<130, false>());
+
+// =============================================================================================
+// iter / set_indices / set_slices
+// =============================================================================================
+
+fn iter_grid<const OFF: usize, const LEN: usize, const N: usize>() {
+    let a: [u8; N] = any_bytes();
+    let x = BooleanBuffer::new(mk(&a, 0), OFF, LEN);
+    set_skews([(OFF / 8) % 8; 6]);
+    // iter: exactly LEN items, the i-th is value i
+    let mut it = x.iter();
+    let mut i = 0;
+    while i < LEN {
+        assert!(it.next() == Some(bit(&a, OFF + i)));
+        i += 1;
+    }
+    assert!(it.next().is_none());
+    // set_indices: strictly increasing, exactly the positions of true values
+    let mut next_expected = 0usize; // every position < next_expected has been accounted for
+    let mut si = x.set_indices();
+    let mut k = 0;
+    while k <= LEN {
+        match si.next() {
+            Some(idx) => {
+                assert!(idx >= next_expected && idx < LEN && bit(&a, OFF + idx));
+                let mut j = next_expected;
+                while j < idx { assert!(!bit(&a, OFF + j)); j += 1; }
+                next_expected = idx + 1;
+            }
+            None => {
+                let mut j = next_expected;
+                while j < LEN { assert!(!bit(&a, OFF + j)); j += 1; }
+                next_expected = LEN + 1;
+                break;
+            }
+        }
+        k += 1;
+    }
+    assert!(next_expected == LEN + 1);
+    kani::cover!(x.count_set_bits() == LEN);
+    kani::cover!(x.count_set_bits() == 0);
+}
+// Contract (C19) BooleanBuffer::iter yields exactly len items, the i-th being value i, then None;
+// set_indices yields strictly increasing positions, each a true value, with no true value skipped
+// before, between or after them (i.e. exactly the positions of the true values).
+// @unit name=bb_iter_0_8 props=C19 kind=bounded bound=grid_(offset,len)=(0,8) fns=BooleanBuffer::iter,BooleanBuffer::set_indices tier=thorough timeout=1500
+inst!(bb_iter_0_8, 11, iter_grid::<0, 8, 2>());
+// @unit name=bb_iter_61_6 props=C19 kind=bounded bound=grid_(offset,len)=(61,6) fns=BooleanBuffer::iter,BooleanBuffer::set_indices timeout=1500
+inst!(bb_iter_61_6, 10, iter_grid::<61, 6, 10>());
+// @unit name=bb_iter_0_0 props=C19 kind=bounded bound=grid_(offset,len)=(0,0) fns=BooleanBuffer::iter,BooleanBuffer::set_indices tier=thorough timeout=1500
+inst!(bb_iter_0_0, 10, iter_grid::<0, 0, 2>());
+
+fn slices_grid<const OFF: usize, const LEN: usize, const N: usize>() {
+    let a: [u8; N] = any_bytes();
+    let x = BooleanBuffer::new(mk(&a, 0), OFF, LEN);
+    set_skews([(OFF / 8) % 8; 6]);
+    // set_slices: maximal runs [s, e) of true values, in order, covering every true value
+    let mut pos = 0usize; // every position < pos has been accounted for
+    let mut ss = x.set_slices();
+    let mut k = 0;
+    let mut finished = false;
+    while k <= LEN {
+        match ss.next() {
+            Some((s, e)) => {
+                assert!(s >= pos && s < e && e <= LEN);
+                assert!(k == 0 || s > pos); // runs are maximal: a gap of >= 1 false value between runs
+                let mut j = pos;
+                while j < s { assert!(!bit(&a, OFF + j)); j += 1; }
+                while j < e { assert!(bit(&a, OFF + j)); j += 1; }
+                pos = e;
+            }
+            None => {
+                let mut j = pos;
+                while j < LEN { assert!(!bit(&a, OFF + j)); j += 1; }
+                finished = true;
+                break;
+            }
+        }
+        k += 1;
+    }
+    assert!(finished);
+    kani::cover!(x.count_set_bits() == LEN);
+    kani::cover!(x.count_set_bits() == 0);
+    kani::cover!(LEN < 3 || (x.value(0) && !x.value(1) && x.value(2)));
+}
+// Contract (C19) BooleanBuffer::set_slices yields, in order, the maximal runs [start, end) of true values:
+// every position inside a run is true, every position between runs (at least one), before the first
+// and after the last run is false.
+// @unit name=bb_slices_0_5 props=C19 kind=bounded bound=grid_(offset,len)=(0,5) fns=BooleanBuffer::set_slices tier=thorough timeout=1500 note=not_confirmed_under_load
+inst!(bb_slices_0_5, 10, slices_grid::<0, 5, 2>());
+// @unit name=bb_slices_61_5 props=C19 kind=bounded bound=grid_(offset,len)=(61,5) fns=BooleanBuffer::set_slices tier=thorough timeout=1500 note=not_confirmed_under_load
+inst!(bb_slices_61_5, 10, slices_grid::<61, 5, 10>());
+// @unit name=bb_slices_0_0 props=C19 kind=bounded bound=grid_(offset,len)=(0,0) fns=BooleanBuffer::set_slices tier=thorough timeout=1500
+inst!(bb_slices_0_0, 10, slices_grid::<0, 0, 2>());
+
+fn chunks_grid<const OFF: usize, const LEN: usize, const N: usize>() {
+    let a: [u8; N] = any_bytes();
+    let x = BooleanBuffer::new(mk(&a, 0), OFF, LEN);
+    let bc = x.bit_chunks();
+    assert!(bc.chunk_len() == LEN / 64 && bc.remainder_len() == LEN % 64);
+    let j: usize = kani::any();
+    kani::assume(j < 64);
+    let mut it = bc.iter();
+    let mut k = 0;
+    while k < LEN / 64 {
+        let w = it.next().unwrap();
+        assert!(((w >> j) & 1 == 1) == bit(&a, OFF + 64 * k + j));
+        k += 1;
+    }
+    assert!(it.next().is_none());
+    // the remainder holds the last len % 64 values in its low bits and is zero above them
+    let r = bc.remainder_bits();
+    assert!(((r >> j) & 1 == 1) == (j < LEN % 64 && bit(&a, OFF + 64 * (LEN / 64) + j)));
+    kani::cover!((r >> j) & 1 == 1);
+    kani::cover!(LEN % 64 == 0 || ((r >> j) & 1 == 0 && j < LEN % 64));
+    kani::cover!(j >= LEN % 64);
+}
+// Contract (C19) BooleanBuffer::bit_chunks(): a view of exactly the addressed bits: len/64 chunks, chunk k
+// bit j == value 64k+j; remainder_len == len % 64; remainder_bits bit j == value 64*(len/64)+j for
+// j < len % 64 and 0 above (bits after the range are symbolic and must not leak into the padding).
+// @unit name=bb_bit_chunks_3_70 props=C19 kind=bounded bound=grid_(offset,len,bytes)=(3,70,12) fns=BooleanBuffer::bit_chunks tier=thorough timeout=300 note=not_confirmed_under_load
+inst!(bb_bit_chunks_3_70, 12, chunks_grid::<3, 70, 12>());
+// @unit name=bb_bit_chunks_0_64 props=C19 kind=bounded bound=grid_(offset,len,bytes)=(0,64,10) fns=BooleanBuffer::bit_chunks tier=thorough timeout=300 note=not_confirmed_under_load
+inst!(bb_bit_chunks_0_64, 12, chunks_grid::<0, 64, 10>());
+// @unit name=bb_bit_chunks_0_0 props=C19 kind=bounded bound=grid_(offset,len,bytes)=(0,0,3) fns=BooleanBuffer::bit_chunks tier=thorough timeout=300 note=not_confirmed_under_load
+inst!(bb_bit_chunks_0_0, 12, chunks_grid::<0, 0, 3>());
+// @unit name=bb_bit_chunks_5_12 props=C19 kind=bounded bound=grid_(offset,len,bytes)=(5,12,5) fns=BooleanBuffer::bit_chunks tier=thorough timeout=300 note=not_confirmed_under_load
+inst!(bb_bit_chunks_5_12, 12, chunks_grid::<5, 12, 5>());
+// @unit name=bb_bit_chunks_63_129 props=C19 kind=bounded bound=grid_(offset,len,bytes)=(63,129,26) fns=BooleanBuffer::bit_chunks tier=thorough timeout=300 note=not_confirmed_under_load
+inst!(bb_bit_chunks_63_129, 12, chunks_grid::<63, 129, 26>());
+// @unit name=bb_bit_chunks_130_200 props=C19 kind=bounded bound=grid_(offset,len,bytes)=(130,200,44) fns=BooleanBuffer::bit_chunks tier=thorough timeout=300 note=not_confirmed_under_load
+inst!(bb_bit_chunks_130_200, 12, chunks_grid::<130, 200, 44>());
+// @unit name=bb_bit_chunks_1_128 props=C19 kind=bounded bound=grid_(offset,len,bytes)=(1,128,19) fns=BooleanBuffer::bit_chunks tier=thorough timeout=300 note=not_confirmed_under_load
+inst!(bb_bit_chunks_1_128, 12, chunks_grid::<1, 128, 19>());
+
+fn ubc_grid<const OFF: usize, const LEN: usize, const N: usize, const SK: usize>() {
+    let a: [u8; N] = any_bytes();
+    let x = BooleanBuffer::new(mk(&a, SK), OFF, LEN);
+    skews().ubc(SK, OFF, LEN).install();
+    let u = x.unaligned_bit_chunks();
+    let (lead, trail) = (u.lead_padding(), u.trailing_padding());
+    let mut words = [0u64; 8];
+    let mut n = 0usize;
+    for w in u.iter() { words[n] = w; n += 1; }
+    assert!(lead < 64 && trail < 64 && lead + LEN + trail == 64 * n);
+    if n > 0 {
+        let p: usize = kani::any();
+        kani::assume(p < 64 * n);
+        let b = (words[p / 64] >> (p % 64)) & 1 == 1;
+        if p < lead || p >= lead + LEN { assert!(!b); } else { assert!(b == bit(&a, 8 * SK + OFF + p - lead)); }
+        kani::cover!(b);
+        kani::cover!(!b && p >= lead && p < lead + LEN);
+    }
+    kani::cover!(n == (lead + LEN + trail) / 64);
+}
+// Contract (C19) BooleanBuffer::unaligned_bit_chunks(): the words prefix, chunks.., suffix concatenated
+// are lead_padding zero bits, then exactly the len addressed values in order, then trailing_padding
+// zero bits (both paddings < 64, total a whole number of words); bits outside the range are symbolic
+// and appear nowhere.
+// @unit name=bb_unaligned_bit_chunks_3_12_2_0 props=C19 kind=bounded bound=grid_(offset,len,bytes,ptr_skew)=(3,12,2,0) fns=BooleanBuffer::unaligned_bit_chunks tier=thorough timeout=300 note=not_confirmed_under_load
+inst!(bb_unaligned_bit_chunks_3_12_2_0, 12, ubc_grid::<3, 12, 2, 0>());
+// @unit name=bb_unaligned_bit_chunks_5_59_8_0 props=C19 kind=bounded bound=grid_(offset,len,bytes,ptr_skew)=(5,59,8,0) fns=BooleanBuffer::unaligned_bit_chunks tier=thorough timeout=300 note=not_confirmed_under_load
+inst!(bb_unaligned_bit_chunks_5_59_8_0, 12, ubc_grid::<5, 59, 8, 0>());
+// @unit name=bb_unaligned_bit_chunks_1_64_9_0 props=C19 kind=bounded bound=grid_(offset,len,bytes,ptr_skew)=(1,64,9,0) fns=BooleanBuffer::unaligned_bit_chunks tier=thorough timeout=300 note=not_confirmed_under_load
+inst!(bb_unaligned_bit_chunks_1_64_9_0, 12, ubc_grid::<1, 64, 9, 0>());
+// @unit name=bb_unaligned_bit_chunks_3_130_24_0 props=C19 kind=bounded bound=grid_(offset,len,bytes,ptr_skew)=(3,130,24,0) fns=BooleanBuffer::unaligned_bit_chunks tier=thorough timeout=300 note=not_confirmed_under_load
+inst!(bb_unaligned_bit_chunks_3_130_24_0, 12, ubc_grid::<3, 130, 24, 0>());
+// @unit name=bb_unaligned_bit_chunks_13_140_22_2 props=C19 kind=bounded bound=grid_(offset,len,bytes,ptr_skew)=(13,140,22,2) fns=BooleanBuffer::unaligned_bit_chunks tier=thorough timeout=300 note=not_confirmed_under_load
+inst!(bb_unaligned_bit_chunks_13_140_22_2, 12, ubc_grid::<13, 140, 22, 2>());
+// @unit name=bb_unaligned_bit_chunks_0_129_17_0 props=C19 kind=bounded bound=grid_(offset,len,bytes,ptr_skew)=(0,129,17,0) fns=BooleanBuffer::unaligned_bit_chunks tier=thorough timeout=300 note=not_confirmed_under_load
+inst!(bb_unaligned_bit_chunks_0_129_17_0, 12, ubc_grid::<0, 129, 17, 0>());
+// @unit name=bb_unaligned_bit_chunks_0_0_1_0 props=C19 kind=bounded bound=grid_(offset,len,bytes,ptr_skew)=(0,0,1,0) fns=BooleanBuffer::unaligned_bit_chunks tier=thorough timeout=300 note=not_confirmed_under_load
+inst!(bb_unaligned_bit_chunks_0_0_1_0, 12, ubc_grid::<0, 0, 1, 0>());
+// @unit name=bb_unaligned_bit_chunks_64_128_24_0 props=C19 kind=bounded bound=grid_(offset,len,bytes,ptr_skew)=(64,128,24,0) fns=BooleanBuffer::unaligned_bit_chunks tier=thorough timeout=300 note=not_confirmed_under_load
+inst!(bb_unaligned_bit_chunks_64_128_24_0, 12, ubc_grid::<64, 128, 24, 0>());
+
+fn sliced_grid<const OFF: usize, const LEN: usize, const N: usize>() {
+    let a: [u8; N] = any_bytes();
+    let x = BooleanBuffer::new(mk(&a, 0), OFF, LEN);
+    let s = x.sliced();
+    assert!(8 * s.len() >= LEN);
+    let i: usize = kani::any();
+    kani::assume(i < LEN);
+    assert!(bit(s.as_slice(), i) == bit(&a, OFF + i));
+    assert!(unsafe { x.value_unchecked(i) } == bit(&a, OFF + i));
+    // inner()/into_inner() expose the unsliced bytes
+    assert!(x.inner().len() == N && bit(x.inner().as_slice(), OFF + i) == bit(&a, OFF + i));
+    kani::cover!(bit(s.as_slice(), i));
+    kani::cover!(!bit(s.as_slice(), i));
+}
+// Contract (C19) BooleanBuffer::sliced(): a zero-offset bitmap of at least ceil(len/8) bytes whose bit i
+// is value i (copying when offset % 8 != 0, byte-slicing otherwise); value_unchecked(i) == value i
+// for i < len; inner() is the unsliced byte buffer.
+// @unit name=bb_sliced_3_70 props=C19 kind=bounded bound=grid_(offset,len,bytes)=(3,70,11) fns=BooleanBuffer::sliced,BooleanBuffer::value_unchecked,BooleanBuffer::inner tier=thorough timeout=300 note=not_confirmed_under_load
+inst!(bb_sliced_3_70, 12, sliced_grid::<3, 70, 11>());
+// @unit name=bb_sliced_8_20 props=C19 kind=bounded bound=grid_(offset,len,bytes)=(8,20,5) fns=BooleanBuffer::sliced,BooleanBuffer::value_unchecked,BooleanBuffer::inner tier=thorough timeout=300 note=not_confirmed_under_load
+inst!(bb_sliced_8_20, 12, sliced_grid::<8, 20, 5>());
+// @unit name=bb_sliced_0_64 props=C19 kind=bounded bound=grid_(offset,len,bytes)=(0,64,9) fns=BooleanBuffer::sliced,BooleanBuffer::value_unchecked,BooleanBuffer::inner tier=thorough timeout=300 note=not_confirmed_under_load
+inst!(bb_sliced_0_64, 12, sliced_grid::<0, 64, 9>());
+// @unit name=bb_sliced_65_130 props=C19 kind=bounded bound=grid_(offset,len,bytes)=(65,130,26) fns=BooleanBuffer::sliced,BooleanBuffer::value_unchecked,BooleanBuffer::inner tier=thorough timeout=300 note=not_confirmed_under_load
+inst!(bb_sliced_65_130, 12, sliced_grid::<65, 130, 26>());
+
+fn u32_grid<const OFF: usize, const LEN: usize, const N: usize>() {
+    let a: [u8; N] = any_bytes();
+    let x = BooleanBuffer::new(mk(&a, 0), OFF, LEN);
+    set_skews([(OFF / 8) % 8; 6]);
+    let mut next_expected = 0usize;
+    let mut si = x.set_indices_u32();
+    let mut k = 0;
+    while k <= LEN {
+        match si.next() {
+            Some(idx) => {
+                let idx = idx as usize;
+                assert!(idx >= next_expected && idx < LEN && bit(&a, OFF + idx));
+                let mut j = next_expected;
+                while j < idx { assert!(!bit(&a, OFF + j)); j += 1; }
+                next_expected = idx + 1;
+            }
+            None => {
+                let mut j = next_expected;
+                while j < LEN { assert!(!bit(&a, OFF + j)); j += 1; }
+                next_expected = LEN + 1;
+                break;
+            }
+        }
+        k += 1;
+    }
+    assert!(next_expected == LEN + 1);
+    kani::cover!(x.count_set_bits() == LEN);
+    kani::cover!(x.count_set_bits() == 0);
+}
+// Contract (C19) BooleanBuffer::set_indices_u32 yields exactly the positions of the true values, in
+// increasing order, as u32.
+// @unit name=bb_set_indices_u32_61_5 props=C19 kind=bounded bound=grid_(offset,len)=(61,5) fns=BooleanBuffer::set_indices_u32 tier=thorough timeout=900 note=not_confirmed_under_load
+inst!(bb_set_indices_u32_61_5, 10, u32_grid::<61, 5, 10>());
+// @unit name=bb_set_indices_u32_0_6 props=C19 kind=bounded bound=grid_(offset,len)=(0,6) fns=BooleanBuffer::set_indices_u32 tier=thorough timeout=900 note=not_confirmed_under_load
+inst!(bb_set_indices_u32_0_6, 10, u32_grid::<0, 6, 2>());
